@@ -213,13 +213,18 @@ pub fn pool(full: bool) -> Vec<V> {
         V::Arr(mixed_array(25)),
         V::obj(&[("k", V::Int(1))]),
         V::DateTime("2020-02-29 23:59:59 +0530".into()),
+        V::Arr(vec![
+            V::obj(&[("p", V::Int(1))]),
+            V::obj(&[("p", V::Nil)]),
+            V::obj(&[("q", V::Int(2))]),
+        ]),
+        V::Int(1 << 31),
     ];
     if full {
         v.extend(vec![
             V::Int(2),
             V::Int(7),
             V::Int(10),
-            V::Int(1 << 31),
             V::Int(-(1 << 31)),
             V::Int(1 << 53),
             V::Int(1 << 62),
@@ -257,11 +262,6 @@ pub fn pool(full: bool) -> Vec<V> {
             V::Arr(vec![
                 V::Arr(vec![V::Int(1), V::Int(2)]),
                 V::Arr(vec![V::Int(3)]),
-            ]),
-            V::Arr(vec![
-                V::obj(&[("p", V::Int(1))]),
-                V::obj(&[("p", V::Nil)]),
-                V::obj(&[("q", V::Int(2))]),
             ]),
             V::Obj(vec![]),
             V::obj(&[("size", V::Int(7)), ("first", V::s("f"))]),
